@@ -84,6 +84,31 @@ pub fn run_all() -> i32 {
     check("a64 sdiv zero", run_a64("    SDIV X0, X1, X2", &[5, 0]), 0);
     check("a64 sdiv ovf", run_a64("    SDIV X0, X1, X2", &[i64::MIN, -1]), i64::MIN);
     check("a64 msub rem", run_a64("    SDIV X3, X1, X2\n    MSUB X0, X3, X2, X1", &[-7, 2]), -1);
+    // further data-processing instructions (hand-derived from the architecture manual)
+    check("a64 and/orr/eor", run_a64("    AND X3, X1, X2\n    ORR X4, X1, X2\n    EOR X0, X3, X4", &[12, 10]), (12 & 10) ^ (12 | 10));
+    check("a64 eor self", run_a64("    EOR X0, X1, X1", &[77]), 0);
+    check("a64 lsl imm", run_a64("    LSL X0, X1, 62", &[3]), (3u64 << 62) as i64);
+    check("a64 lsr imm", run_a64("    LSR X0, X1, 1", &[-8]), ((-8i64 as u64) >> 1) as i64);
+    check("a64 asr imm", run_a64("    ASR X0, X1, 63", &[-8]), -1);
+    check("a64 lsl reg mod 64", run_a64("    LSL X0, X1, X2", &[1, 70]), 64);
+    check("a64 udiv", run_a64("    UDIV X0, X1, X2", &[-7, 2]), ((-7i64 as u64) / 2) as i64);
+    check("a64 udiv zero", run_a64("    UDIV X0, X1, X2", &[5, 0]), 0);
+    check("a64 madd", run_a64("    MADD X0, X1, X2, X1", &[7, 3]), 7 + 21);
+    check("a64 neg", run_a64("    NEG X0, X1", &[i64::MIN]), i64::MIN);
+    check("a64 mvn", run_a64("    MVN X0, X1", &[0]), -1);
+    check("a64 cbz", run_a64("    MOVZ X0, 1, LSL 0\n    CBZ X1, t\n    MOVZ X0, 2, LSL 0\nt:", &[0]), 1);
+    check("a64 cbnz", run_a64("    MOVZ X0, 1, LSL 0\n    CBNZ X1, t\n    MOVZ X0, 2, LSL 0\nt:", &[0]), 2);
+    check("a64 tbnz sign", run_a64("    MOVZ X0, 1, LSL 0\n    TBNZ X1, 63, t\n    MOVZ X0, 2, LSL 0\nt:", &[-5]), 1);
+    check("a64 tbz", run_a64("    MOVZ X0, 1, LSL 0\n    TBZ X1, 0, t\n    MOVZ X0, 2, LSL 0\nt:", &[3]), 2);
+    check("a64 b.hi", run_a64("    MOVZ X0, 1, LSL 0\n    CMP X1, X2\n    B.HI t\n    MOVZ X0, 2, LSL 0\nt:", &[-1, 1]), 1);
+    check("a64 b.ls", run_a64("    MOVZ X0, 1, LSL 0\n    CMP X1, X2\n    B.LS t\n    MOVZ X0, 2, LSL 0\nt:", &[-1, 1]), 2);
+    check("a64 b.hs eq", run_a64("    MOVZ X0, 1, LSL 0\n    CMP X1, X2\n    B.HS t\n    MOVZ X0, 2, LSL 0\nt:", &[7, 7]), 1);
+    check("a64 b.lo", run_a64("    MOVZ X0, 1, LSL 0\n    CMP X1, X2\n    B.LO t\n    MOVZ X0, 2, LSL 0\nt:", &[1, 2]), 1);
+    check("a64 b.mi", run_a64("    MOVZ X0, 1, LSL 0\n    CMP X1, X2\n    B.MI t\n    MOVZ X0, 2, LSL 0\nt:", &[1, 2]), 1);
+    check("a64 subs/b.eq", run_a64("    MOVZ X0, 1, LSL 0\n    SUBS X3, X1, X2\n    B.EQ t\n    MOVZ X0, 2, LSL 0\nt:", &[5, 5]), 1);
+    check("a64 tst", run_a64("    MOVZ X0, 1, LSL 0\n    TST X1, X2\n    B.EQ t\n    MOVZ X0, 2, LSL 0\nt:", &[12, 3]), 1);
+    check("a64 cmn", run_a64("    MOVZ X0, 1, LSL 0\n    CMN X1, X2\n    B.EQ t\n    MOVZ X0, 2, LSL 0\nt:", &[5, -5]), 1);
+    check("a64 adds carry", run_a64("    MOVZ X0, 1, LSL 0\n    ADDS X3, X1, X2\n    B.HS t\n    MOVZ X0, 2, LSL 0\nt:", &[-1, 1]), 1);
     check("a64 stp/ldp", run_a64("    STP X1, X2, [ SP, -16 ]!\n    LDP X3, X4, [ SP ], 16\n    SUB X0, X3, X4", &[30, 12]), 18);
     check("a64 str/ldr sp", run_a64("    SUB SP, SP, 32\n    STR X1, [ SP, 24 ]\n    LDR X0, [ SP, 24 ]\n    ADD SP, SP, 32", &[77]), 77);
     check("a64 xzr", run_a64("    SUB SP, SP, 16\n    STR X1, [ SP, 8 ]\n    STR XZR, [ SP, 8 ]\n    LDR X0, [ SP, 8 ]\n    ADD SP, SP, 16", &[77]), 0);
@@ -101,6 +126,29 @@ pub fn run_all() -> i32 {
     check("x86 idiv rem", run_x86("    mov rcx, rdx\n    mov rax, rsi\n    cqo\n    idiv rcx\n    mov rax, rdx", &[-7, 2]), -1);
     check("x86 push/pop", run_x86("    push rsi\n    push rdx\n    pop rax\n    pop rcx\n    sub rax, rcx", &[5, 9]), 4);
     check("x86 mem imm", run_x86("    sub rsp, 16\n    mov qword [rsp + 8], -5\n    add qword [rsp + 8], 3\n    mov rax, [rsp + 8]\n    add rsp, 16", &[]), -2);
+    // further integer instructions (expected values taken from the native CPU)
+    check("x86 xor zero", run_x86("    mov rax, rsi\n    xor rax, rax", &[5, 0]), 0);
+    check("x86 xor", run_x86("    mov rax, rsi\n    xor rax, rdx", &[12, 10]), 6);
+    check("x86 and imm", run_x86("    mov rax, rsi\n    and rax, -16", &[1234567, 0]), 1234560);
+    check("x86 or mem", run_x86("    sub rsp, 16\n    mov [rsp + 8], rdx\n    mov rax, rsi\n    or rax, [rsp + 8]\n    add rsp, 16", &[12, 3]), 15);
+    check("x86 test je", run_x86("    mov rax, 1\n    test rsi, rdx\n    je t\n    mov rax, 2\nt:", &[12, 3]), 1);
+    check("x86 test js", run_x86("    mov rax, 1\n    test rsi, rsi\n    js t\n    mov rax, 2\nt:", &[-12, 0]), 1);
+    check("x86 neg", run_x86("    mov rax, rsi\n    neg rax", &[i64::MIN, 0]), i64::MIN);
+    check("x86 neg flags", run_x86("    mov rax, 1\n    mov rcx, rsi\n    neg rcx\n    jb t\n    mov rax, 2\nt:", &[0, 0]), 2);
+    check("x86 not", run_x86("    mov rax, rsi\n    not rax", &[0, 0]), -1);
+    check("x86 inc keeps cf", run_x86("    mov rax, 1\n    cmp rsi, rdx\n    inc rsi\n    jb t\n    mov rax, 2\nt:", &[1, 2]), 1);
+    check("x86 dec jz", run_x86("    mov rax, 1\n    dec rsi\n    jz t\n    mov rax, 2\nt:", &[1, 0]), 1);
+    check("x86 shl", run_x86("    mov rax, rsi\n    shl rax, 62", &[3, 0]), -4611686018427387904);
+    check("x86 shr", run_x86("    mov rax, rsi\n    shr rax, 1", &[-8, 0]), 9223372036854775804);
+    check("x86 sar", run_x86("    mov rax, rsi\n    sar rax, 63", &[-8, 0]), -1);
+    check("x86 shl cl", run_x86("    mov rax, rsi\n    mov rcx, rdx\n    shl rax, cl", &[1, 70]), 64);
+    check("x86 shr cf", run_x86("    mov rax, 1\n    shr rsi, 1\n    jb t\n    mov rax, 2\nt:", &[3, 0]), 1);
+    check("x86 xchg", run_x86("    mov rax, rsi\n    xchg rax, rdx\n    sub rax, rdx", &[5, 9]), 4);
+    check("x86 ja", run_x86("    mov rax, 1\n    cmp rsi, rdx\n    ja t\n    mov rax, 2\nt:", &[-1, 1]), 1);
+    check("x86 jbe", run_x86("    mov rax, 1\n    cmp rsi, rdx\n    jbe t\n    mov rax, 2\nt:", &[-1, 1]), 2);
+    check("x86 jae eq", run_x86("    mov rax, 1\n    cmp rsi, rdx\n    jae t\n    mov rax, 2\nt:", &[7, 7]), 1);
+    check("x86 jns", run_x86("    mov rax, 1\n    cmp rsi, rdx\n    jns t\n    mov rax, 2\nt:", &[1, 2]), 2);
+    check("x86 add cf", run_x86("    mov rax, 1\n    add rsi, rdx\n    jb t\n    mov rax, 2\nt:", &[-1, 1]), 1);
     check("x86 div by zero traps", run_x86("    mov rcx, rdx\n    mov rax, rsi\n    cqo\n    idiv rcx", &[1, 0]).map_err(|e| e.contains("#DE")).err().map(|b| b as i64).ok_or(String::new()), 1);
     for a in bounds {
         for b in bounds {
@@ -115,6 +163,32 @@ pub fn run_all() -> i32 {
     check("rv div zero", run_rv("DIV X10 X5 X7", &[5, 0]), -1);
     check("rv div ovf", run_rv("DIV X10 X5 X7", &[i64::MIN, -1]), i64::MIN);
     check("rv rem", run_rv("REM X10 X5 X7", &[-7, 2]), -1);
+    // the rest of RV64IM and the usual pseudo-instructions (not emitted by the pinned back end)
+    check("rv divu", run_rv("DIVU X10 X5 X7", &[-7, 2]), ((-7i64 as u64) / 2) as i64);
+    check("rv divu zero", run_rv("DIVU X10 X5 X7", &[5, 0]), -1);
+    check("rv remu", run_rv("REMU X10 X5 X7", &[-7, 5]), ((-7i64 as u64) % 5) as i64);
+    check("rv slt", run_rv("SLT X10 X5 X7", &[-1, 0]), 1);
+    check("rv sltu", run_rv("SLTU X10 X5 X7", &[-1, 0]), 0);
+    check("rv slti", run_rv("SLTI X10 X5 -3", &[-4]), 1);
+    check("rv and/or/xor", run_rv("AND X11 X5 X7\nOR X12 X5 X7\nXOR X10 X11 X12", &[12, 10]), (12 & 10) ^ (12 | 10));
+    check("rv sll", run_rv("SLL X10 X5 X7", &[3, 62]), (3u64 << 62) as i64);
+    check("rv srl", run_rv("SRL X10 X5 X7", &[-8, 1]), ((-8i64 as u64) >> 1) as i64);
+    check("rv sra", run_rv("SRA X10 X5 X7", &[-8, 1]), -4);
+    check("rv srai", run_rv("SRAI X10 X5 63", &[-8]), -1);
+    check("rv slli", run_rv("SLLI X10 X5 12", &[0x7ffff]), 0x7ffff << 12);
+    check("rv lui", run_rv("LUI X10 524287", &[]), 0x7ffff000);
+    check("rv lui sign", run_rv("LUI X10 524288", &[]), -2147483648);
+    check("rv lui addi", run_rv("LUI X10 524288\nADDI X10 X10 -1", &[]), -2147483649);
+    check("rv mulh", run_rv("MULH X10 X5 X7", &[i64::MIN, 2]), -1);
+    check("rv neg", run_rv("NEG X10 X5", &[7]), -7);
+    check("rv not", run_rv("NOT X10 X5", &[0]), -1);
+    check("rv seqz", run_rv("SEQZ X10 X5", &[0]), 1);
+    check("rv snez", run_rv("SNEZ X10 X5", &[-3]), 1);
+    check("rv bltu", run_rv("LI X10 1\nBLTU X5 X7 t\nLI X10 2\nt:", &[1, -1]), 1);
+    check("rv bgeu", run_rv("LI X10 1\nBGEU X5 X7 t\nLI X10 2\nt:", &[1, -1]), 2);
+    check("rv bgtz", run_rv("LI X10 1\nBGTZ X5 t\nLI X10 2\nt:", &[0]), 2);
+    check("rv blez", run_rv("LI X10 1\nBLEZ X5 t\nLI X10 2\nt:", &[0]), 1);
+    check("rv j", run_rv("LI X10 1\nJ t\nLI X10 2\nt:", &[]), 1);
     check("rv rem zero", run_rv("REM X10 X5 X7", &[5, 0]), 5);
     check("rv rem ovf", run_rv("REM X10 X5 X7", &[i64::MIN, -1]), 0);
     check("rv sw/lw 64-bit", run_rv("SW X5 16 X2\nLW X10 16 X2", &[i64::MIN + 12345]), i64::MIN + 12345);
